@@ -904,16 +904,34 @@ Definition sb_nodouble_local (l : list (oev nat)) : bool :=
 (** * Allocation scripts of the correspondence check *)
 
 (** [TA n]: allocate [n] bytes (pushed); [TD]: free the top; [TG n]/[TS n]:
-    grow/shrink the top to [n] bytes (realloc); what is left is leaked. *)
-Inductive tok := TA (n : N) | TD | TG (n : N) | TS (n : N).
+    grow/shrink the top to [n] bytes (realloc); what is left is leaked.
+    [TK] (generator script): keep the top buffer for the call that will get this
+    input — no allocator operation, the buffer leaves the script's stack;
+    [TT] (call script): take the next buffer the generator kept — no allocator
+    operation, it is now the top.  So a call can resize or free memory that was
+    allocated outside the timed section. *)
+Inductive tok := TA (n : N) | TD | TG (n : N) | TS (n : N) | TK | TT.
 
-Fixpoint interp (l : list tok) (stack : list N) : list aop :=
+Fixpoint interp (l : list tok) (stack : list N) (kept : list N) : list aop :=
   match l with
   | [] => []
-  | TA n :: r => Alloc n :: interp r (n :: stack)
-  | TD :: r => match stack with s :: st => Dealloc s :: interp r st | [] => interp r [] end
+  | TA n :: r => Alloc n :: interp r (n :: stack) kept
+  | TD :: r => match stack with s :: st => Dealloc s :: interp r st kept | [] => interp r [] kept end
   | TG n :: r | TS n :: r =>
-      match stack with s :: st => Realloc s n :: interp r (n :: st) | [] => interp r [] end
+      match stack with s :: st => Realloc s n :: interp r (n :: st) kept | [] => interp r [] kept end
+  | TK :: r => match stack with _ :: st => interp r st kept | [] => interp r [] kept end
+  | TT :: r => match kept with s :: ks => interp r (s :: stack) ks | [] => interp r stack [] end
+  end.
+
+(** Sizes of the buffers a script keeps, in the order kept. *)
+Fixpoint kept_of (l : list tok) (stack : list N) : list N :=
+  match l with
+  | [] => []
+  | TA n :: r => kept_of r (n :: stack)
+  | TD :: r => match stack with _ :: st => kept_of r st | [] => kept_of r [] end
+  | TG n :: r | TS n :: r => match stack with _ :: st => kept_of r (n :: st) | [] => kept_of r [] end
+  | TK :: r => match stack with s :: st => s :: kept_of r st | [] => kept_of r [] end
+  | TT :: r => kept_of r stack
   end.
 
 Record scripts := mkScr {
@@ -925,11 +943,11 @@ Record scripts := mkScr {
     generator. *)
 Definition script_fn (v : vis) (s : scripts) (a : action) : list aop :=
   match a with
-  | Gen _ => if v_gen v then interp (sc_gen s) [] else []
-  | Count _ _ => interp (sc_count s) []
-  | Call _ _ _ => interp (sc_call s) []
-  | UserDropIn _ | DropIn _ _ => if v_idrop v then interp (sc_dropin s) [] else []
-  | DropOut _ _ => if v_odrop v then interp (sc_dropout s) [] else []
+  | Gen _ => if v_gen v then interp (sc_gen s) [] [] else []
+  | Count _ _ => interp (sc_count s) [] []
+  | Call _ _ _ => interp (sc_call s) [] (if v_gen v then kept_of (sc_gen s) [] else [])
+  | UserDropIn _ | DropIn _ _ => if v_idrop v then interp (sc_dropin s) [] [] else []
+  | DropOut _ _ => if v_odrop v then interp (sc_dropout s) [] [] else []
   | _ => []
   end.
 
@@ -1010,7 +1028,7 @@ Definition sb_thread_sizes (c : rcfg) (sizes : list nat) (t : nat) (l : list (oe
 (** Call script limited to the calls whose per-thread ordinal is below [lim]. *)
 Definition script_fn_lim (v : vis) (s : scripts) (lim : option nat) (base : nat) (a : action) : list aop :=
   match a, lim with
-  | Call i _ _, Some l => if base + i <? l then interp (sc_call s) [] else []
+  | Call i _ _, Some l => if base + i <? l then script_fn v s a else []
   | _, _ => script_fn v s a
   end.
 
